@@ -218,8 +218,13 @@ def r6_r7_r8(ctx: Context, loop: FuncInfo) -> None:
         ok = "if not condition_to_pending_triggers[" in src or ("if not" in src and "pending" in src)
         ctx.add("R7", f"{loop.qualname}::consume-only-when-no-pending-trigger", ok, loop.loc(c), "" if ok else f"cleared set = {src[:100]}")
     # a trigger that ran is removed from the pending sets of ITS conditions only when it should trigger
-    txt = ast.unparse(loop.node)
-    ok = "if not trigger.should_trigger(context):\n            continue" in txt and ".discard(trigger.trigger_id)" in txt
+    ok = False
+    for fl in [n for n in walk_no_nested(loop.node) if isinstance(n, ast.For)]:
+        lv = names_in(fl.target)
+        skips = [n for n in fl.body if isinstance(n, ast.If) and isinstance(n.test, ast.UnaryOp) and isinstance(n.test.op, ast.Not) and isinstance(n.test.operand, ast.Call) and call_name(n.test.operand) == "should_trigger" and names_in(n.test.operand.func) & lv and any(isinstance(x, ast.Continue) for x in n.body)]
+        disc = [c for c in calls_in(fl) if call_name(c) == "discard" and c.args and isinstance(c.args[0], ast.Attribute) and c.args[0].attr == "trigger_id" and names_in(c.args[0]) & lv]
+        if skips and disc and all(d.lineno > skips[0].lineno for d in disc):
+            ok = True
     ctx.add("R7", f"{loop.qualname}::pending-set-updated-only-for-fired-triggers", ok, loop.loc(), "" if ok else "pending bookkeeping does not follow should_trigger")
     # R8
     td = ctx.repo.cls("TriggerDefinition")
